@@ -769,6 +769,8 @@ func precedesInCFG(fn *ssa.Function, a, b ssa.Instruction) bool {
 // ---------------------------------------------------------------- C18
 
 func checkC18(c *Ctx) {
+	// descriptions and file names are UTF-16LE text with a fixed byte order (shared with C17)
+	c.ruleUTF16()
 	c.rulePartialField("T6.partial", func(f *ssa.Function) bool { return strings.Contains(name(f), "efi/device.") })
 	c.ruleCodeUnits("T7.units", func(f *ssa.Function) bool {
 		return strings.Contains(name(f), "efi/device.") || strings.Contains(name(f), "efivar")
